@@ -41,8 +41,8 @@ fn cleanup_reactor_data_rule()
     std::mem::forget(captured); std::mem::forget(world);
 }
 
-/// C16 / C06: `EntityReactor::remove` queues one revoke for the reconstructed token and one data cleanup PER
-/// DISTINCT ENTITY named by the removed bundle; a missing reactor resource queues nothing.
+/// C16 / C06: `EntityReactor::remove` queues the revoke for the reconstructed token and the data cleanup; a missing reactor
+/// resource queues nothing.
 #[kani::proof]
 #[kani::stub(core::any::TypeId::of, crate::vh::stub_typeid_of)]
 #[kani::stub(<core::any::TypeId as crate::vh::PEq>::eq, crate::vh::stub_typeid_eq)]
@@ -58,11 +58,60 @@ fn entity_reactor_remove_cleans_every_entity()
     let mut c = cmds(wp);
     let ok = reactor.remove(&mut c, (entity_mutation::<Wa>(e1), entity_mutation::<Wa>(e2), entity_insertion::<Wa>(e1)));
     assert!(ok == present);
+    // one cleanup call handles ONE entity (its input is `(reactor, entity)`; cleanup_reactor_data_rule is compiled against that signature,
+    // so a batched cleanup makes this crate fail to build = inconclusive, not a false alarm): one call per distinct entity is necessary
     if present { assert!(world.m_queued() == 3, "C16: one revoke + one local-data cleanup for each of the two distinct entities"); }
     else { assert!(world.m_queued() == 0, "C16: a missing world reactor changes nothing"); }
     kani::cover!(present, "reactor present");
     std::mem::forget(world);
 }
+
+/// C16 (data follows the last trigger, through the public call): `EntityReactor::remove` applied on a bundle naming two
+/// entities, in either order - e_partial still carries another trigger of this reactor afterwards, e_emptied carries none
+/// : the local data stays on e_partial and is removed from e_emptied, whatever the order in which the
+/// bundle names them.  The revoke itself is recorded (its effect on the tables is written into the pre-state; C06 decides
+/// it); the cleanup runs for real, whatever its signature or batching.
+fn entity_reactor_remove_end_to_end(partial_first: bool)
+{
+    let mut world = World::new();
+    world.m_drop_table::<bevy::model::cell::LeakAll>();
+    world.m_set_cmd_mode(CmdMode::Immediate);
+    let me = SystemCommand(ent(41));
+    let other = SystemCommand(ent(42));
+    let ins_w = EntityReactionType::Insertion(TypeId::of::<Wa>());
+    let mut_w = EntityReactionType::Mutation(TypeId::of::<Wa>());
+    // tables as the revoke of (mutation Wa on both entities) leaves them
+    let mut t_partial = EntityReactors::default();
+    t_partial.insert(ins_w, ReactorHandle::Persistent(me));
+    let t_emptied = EntityReactors::default();
+    let _ = (other, mut_w);
+    let e_partial = world.spawn((t_partial, EntityWorldLocal::<TR>::new(1))).id();
+    let e_emptied = world.spawn((t_emptied, EntityWorldLocal::<TR>::new(2))).id();
+    let mut res = EntityWorldReactorRes::<TR>::new(me);
+    let reactor: EntityReactor<TR> = EntityReactor{ inner: Some(ResMut::m_new(&mut res)) };
+    let wp = &mut world as *mut World;
+    let mut c = cmds(wp);
+    let ok = if partial_first { reactor.remove(&mut c, (entity_mutation::<Wa>(e_partial), entity_mutation::<Wa>(e_emptied))) }
+             else { reactor.remove(&mut c, (entity_mutation::<Wa>(e_emptied), entity_mutation::<Wa>(e_partial))) };
+    assert!(ok && crate::react::react_commands::verif_h::revokes() == 1, "C16/C06: exactly one revoke for the removed bundle");
+    assert!(world.m_has::<EntityWorldLocal<TR>>(e_partial), "C16: local data stays while another trigger of this reactor remains on the entity");
+    assert!(!world.m_has::<EntityWorldLocal<TR>>(e_emptied), "C16: local data is removed from the entity whose last trigger of this reactor was removed - whichever entity the bundle names first");
+    assert!(world.m_queue.is_empty());
+    kani::cover!(true, "end of harness reached");
+    std::mem::forget(world);
+}
+#[kani::proof]
+#[kani::stub(core::any::TypeId::of, crate::vh::stub_typeid_of)]
+#[kani::stub(<core::any::TypeId as crate::vh::PEq>::eq, crate::vh::stub_typeid_eq)]
+#[kani::stub(ReactCommands::revoke, crate::react::react_commands::verif_h::record_revoke)]
+#[kani::unwind(5)]
+fn entity_reactor_remove_partial_first() { entity_reactor_remove_end_to_end(true) }
+#[kani::proof]
+#[kani::stub(core::any::TypeId::of, crate::vh::stub_typeid_of)]
+#[kani::stub(<core::any::TypeId as crate::vh::PEq>::eq, crate::vh::stub_typeid_eq)]
+#[kani::stub(ReactCommands::revoke, crate::react::react_commands::verif_h::record_revoke)]
+#[kani::unwind(5)]
+fn entity_reactor_remove_emptied_first() { entity_reactor_remove_end_to_end(false) }
 
 /// C16 / C18: `EntityReactor::add` on a live entity queues the local data (try_insert, for that entity) and ONE
 /// persistent registration; on a dead id, or when the reactor is missing, it queues nothing and returns false.
